@@ -45,6 +45,7 @@ type zzSpec struct {
 	defB       bool
 
 	viaRef bool
+	ghost  bool // the required list names an undeclared key "ghost"
 }
 
 const (
@@ -283,6 +284,16 @@ func zzGen(mask int, depth int, allowNullable bool) (*schemas.Type, *zzSpec) {
 		s.required = map[string]bool{"p": req}
 		if req {
 			t.Required = []string{"p"}
+		}
+		if zzvrt.Param("GHOSTREQ", 0) == 1 && zzvrt.Bool() {
+			// the required list also names a key the object does not declare, before or after the
+			// declared one (the documents of the unit carry that key, so it decides nothing)
+			if zzvrt.Bool() {
+				t.Required = append([]string{"ghost"}, t.Required...)
+			} else {
+				t.Required = append(t.Required, "ghost")
+			}
+			s.ghost = true
 		}
 	case zzKEnumString:
 		s.kind = "enum-string"
